@@ -24,6 +24,8 @@ def build_files(fp, d):
         "f": [np.nan if i == 2 else i * 0.25 + 1 for i in range(n)],
         "s": pd.Series([None if i == 4 else "w%03d" % i for i in range(n)], dtype=object),
         "b": [bool(i % 2) for i in range(n)], "t": pd.date_range("2022-05-01", periods=n, freq="D"),
+        "tu": pd.Series(pd.date_range("2021-01-01", periods=n, freq="h")).astype("datetime64[us]"),
+        "tm": pd.Series(pd.date_range("2021-01-01", periods=n, freq="h")).astype("datetime64[ms]"),
         "k": pd.Categorical([["ca", "cb", "cc"][i % 3] for i in range(n)]),
         "ni": pd.array([None if i == 1 else i * 3 for i in range(n)], dtype="Int64"),
         "nb": pd.array([None if i == 5 else bool(i % 2) for i in range(n)], dtype="boolean"),
@@ -55,7 +57,8 @@ def build_files(fp, d):
             col("flag", "BOOLEAN", "OPTIONAL", None, [True, None, False, True]),
             col("day", "INT32", "REQUIRED", "DATE", [18000, 18001, 18002, 18003]),
             col("ts", "INT64", "OPTIONAL", "TIMESTAMP_MILLIS", [1600000000000, None, 1600000001000, 1600000002000]),
-            col("u16", "INT32", "REQUIRED", "UINT_16", [1, 2, 65535, 4])]
+            col("u16", "INT32", "REQUIRED", "UINT_16", [1, 2, 65535, 4]),
+            col("tu", "INT64", "REQUIRED", "TIMESTAMP_MICROS", [1600000000000000, 1600000001000000, 1600000002000000, 1600000003000000])]
     data = PW.build_file({"created_by": "parquet-mr version 1.12.0", "schema": [c[0] for c in cols],
                           "row_groups": [{"num_rows": 4, "columns": [c[1] for c in cols]}]})
     foreign = os.path.join(d, "foreign.parquet")
@@ -120,7 +123,10 @@ def job(args):
                 else:
                     cats = {catcol: 3}
                 idxcol = "i64" if "i64" in allcols else "x"      # a column without missing values
-                index = {"none": None, "false": False, "name": idxcol}[o["index"]]
+                timecol = ("tu" if (oi % 2 == 0 or "tm" not in allcols) else "tm") if "tu" in allcols else None
+                if o["index"] == "time" and timecol is None:
+                    continue
+                index = {"none": None, "false": False, "name": idxcol, "time": timecol}[o["index"]]
                 dto = None
                 if o["dtypes"] == "override":
                     # the dtypes argument replaces the whole prediction: start from it and change one numeric column
@@ -154,6 +160,10 @@ def job(args):
                 continue
             if sorted(idx_names) != sorted(pred_index or []):
                 out["viol"].append((dict(sig, what="index columns differ from the prediction"), oi))
+            elif len(idx_names) == 1 and idx_names[0] in pred_dtypes and o["dtypes"] == "none" and \
+                    kind_of(pred_dtypes[idx_names[0]]) != kind_of(df.index.dtype):
+                out["viol"].append((dict(sig, what="dtype of the index read differs from the dtype predicted for that column",
+                                         predicted=kind_of(pred_dtypes[idx_names[0]]), read=kind_of(df.index.dtype)), oi))
             if len(df) != pred_rows or pred_info_rows != pred_rows or sum(pred_rg) != pred_rows:
                 out["viol"].append((dict(sig, what="row counts reported from metadata differ from the rows read"), oi))
             for c in real_cols:
